@@ -1,5 +1,6 @@
 import PallasVerif.Stream
 import PallasVerif.Model.TxBuild
+import PallasVerif.Model.TxBuildEnc
 /-! stream `txbuild`: staging ops as token lines, `build` prints the canonical view of the built
     transaction (everything that comes out of a `HashMap` iteration is printed sorted). Payload
     tokens carry the `ok` bit (does pallas decode it) and scripts / datums their hash key, both
@@ -60,6 +61,23 @@ def showSdh (t : BuiltTx) : String :=
   | none => "0"
   | some h => if t.redeemers.length ≤ 1 && t.datums.length ≤ 1 then showBytes h else "1"
 
+def showB8 (b : List UInt8) : String := showBytes (b.map (·.toNat))
+
+/-- the body (hence the id) depends on a `HashMap` iteration order only through the script data hash -/
+def idOrderFree (t : BuiltTx) : Bool := t.redeemers.length ≤ 1 && t.datums.length ≤ 1
+
+/-- the witness set lists scripts per language in `HashMap` order -/
+def txOrderFree (t : BuiltTx) : Bool :=
+  idOrderFree t && [0, 1, 2, 3].all (fun k => (TxBuildEnc.scriptsOf t k).length ≤ 1)
+
+/-- the id the model computes: BLAKE2b-256 of the body bytes it produces itself -/
+def showId (t : BuiltTx) : String :=
+  if idOrderFree t then (match TxBuildEnc.txId t with | some h => showB8 h | none => "none") else "*"
+
+/-- the full `tx_bytes` the model produces -/
+def showTxBytes (t : BuiltTx) : String :=
+  if txOrderFree t then (match TxBuildEnc.txBytes t with | some b => showB8 b | none => "none") else "*"
+
 def showTx (t : BuiltTx) : String :=
   let l (xs : List Inp) := Tok.showList showInp xs
   let sc := sortStrings (t.scripts.map (fun e => toString e.1 ++ ":" ++ showBytes e.2))
@@ -74,7 +92,7 @@ def showTx (t : BuiltTx) : String :=
   " ref=" ++ l t.refInputs ++ " sdh=" ++ showSdh t ++
   " adh=" ++ (if t.auxDataHash then "1" else "0") ++
   " sc=" ++ Tok.showList id sc ++ " pd=" ++ Tok.showList id pd ++ " rd=" ++ Tok.showList id rd ++
-  " aux=" ++ (match t.aux with | none => "none" | some b => showBytes b) ++ " id=1"
+  " aux=" ++ (match t.aux with | none => "none" | some b => showBytes b) ++ " id=" ++ showId t ++ " tx=" ++ showTxBytes t
 
 def showErr : Err → String
   | .assetName => "assetname" | .script => "script" | .datum => "datum" | .datumHash => "datumhash"
